@@ -129,6 +129,9 @@ def own_checks(ops, answers):
             if not ms or any(x != y for x, y in ms):
                 bad.append((i, "the same computation repeated in the same process (on buffers at other "
                                "addresses) gave different bits"))
+        elif toks[1] == "naneq":
+            if not re.fullmatch(r"nan@\d+ f+", a):
+                bad.append((i, "a container holding a NaN compared equal (to itself or to an equal copy)"))
         elif toks[1] == "crosslist":
             m = re.fullmatch(r"same=(\d+) other_same_thread=(\d+)/(\d+) cross_thread=(\d+)/(\d+)", a)
             k = int(toks[2])
